@@ -41,6 +41,8 @@ type c14Case struct {
 	// OnlyRemote (entity API only): the victim was fetched but never merged, or its local ref is gone already: it is
 	// known through its remote-tracking refs only
 	OnlyRemote bool `json:"only_remote,omitempty"`
+	// Select (CLI only): another bug is the selected one (git-bug bug select) while the victim is removed by id
+	Select bool `json:"select,omitempty"`
 }
 
 func genC14(t *rapid.T) c14Case {
@@ -67,6 +69,7 @@ func genC14(t *rapid.T) c14Case {
 		anyHolder = anyHolder || p
 	}
 	c.OnlyRemote = c.Mode == "dag" && anyHolder && rapid.IntRange(0, 3).Draw(t, "onlyRemote") == 0
+	c.Select = c.Mode == "cli" && c.Others > 0 && rapid.Bool().Draw(t, "select")
 	return c
 }
 
@@ -233,10 +236,15 @@ func runC14(tb report.TB, rep *report.Reporter, c c14Case) {
 	}
 	pushedClass := fmt.Sprintf("remotes:%d/holding:%d", c.NRemotes, holders)
 	rep.Case(fmt.Sprintf("%s|%s|%s|o%d|s%d|e%d", c.Entity, c.Mode, pushedClass, c.Others, c.SharePfx, c.Edits), holders >= 1 && c.Others >= 1,
-		[]string{"entity:" + c.Entity, "mode:" + c.Mode, pushedClass, fmt.Sprintf("packed-refs:%v", c.Packed), fmt.Sprintf("known-through-remote-tracking-refs-only:%v", c.OnlyRemote)}, c)
+		[]string{"entity:" + c.Entity, "mode:" + c.Mode, pushedClass, fmt.Sprintf("packed-refs:%v", c.Packed), fmt.Sprintf("known-through-remote-tracking-refs-only:%v", c.OnlyRemote), fmt.Sprintf("another-bug-selected:%v", c.Select)}, c)
 
 	// ---- the removal
 	_ = repo.Close()
+	if c.Select {
+		if res := RunCLI(main, "bug", "select", others[len(others)-1]); res.Code != 0 {
+			tb.Fatalf("harness: bug select: %s", res.Out)
+		}
+	}
 	var liveLookups func(rc *cache.RepoCache)
 	remove := func() (string, error) {
 		switch c.Mode {
